@@ -144,6 +144,17 @@ def handle (fs : List String) : String :=
        | .ok c => "ok\t" ++ encStr (serializePlay c)
        | .error e => errStr e)
     | none => "bad-op"
+  | ["ev", bad, p] =>
+    -- "excl" and "vplay" of one play in one request (the play is parsed once): answers joined by ';'
+    match parsePlay p with
+    | some p =>
+      (match exclude p with
+       | .ok c => "ok\t" ++ encStr (serializePlay c)
+       | .error e => errStr e) ++ ";" ++
+      (match verifyPlayFull (D := Str) id (drvSigDecodes (decList bad)) (fun _ _ => true) p with
+       | .ok (_, t) => "ok\t" ++ encStr t
+       | .error e => errStr e)
+    | none => "bad-op"
   | ["vplay", bad, p] =>
     -- verify_play with a GPG that is never consulted for the answer: digest text it would be shown
     match parsePlay p with
